@@ -1,16 +1,120 @@
-"""native replay of verifier counterexamples against the real C++ code (DESIGN.md 2.7)"""
+"""native replay of verifier counterexamples against the real C++ code (DESIGN.md 2.7).
+
+Every replayer builds from the CURRENT /repo working tree into /verif/build/native/<pid> and removes it again."""
 import json
 import os
+import re
+import shutil
+import subprocess
 import sys
 
 ROOT = os.path.dirname(os.path.dirname(os.path.abspath(__file__)))
+REPO = os.environ.get('VERIF_REPO', '/repo')
+DEFS = ['-DDBGROUP_MAX_THREAD_NUM=32', '-DCPP_UTILITY_SPINLOCK_RETRY_NUM=10', '-DCPP_UTILITY_BACKOFF_TIME=10',
+        '-DCPP_UTILITY_HAS_SPINLOCK_HINT']
+_built = {}
+
+
+def run(cmd, timeout=120, cwd=None):
+    try:
+        p = subprocess.run(cmd, capture_output=True, text=True, timeout=timeout, cwd=cwd)
+        return p.returncode, p.stdout + p.stderr
+    except subprocess.TimeoutExpired as e:
+        out = e.stdout.decode() if isinstance(e.stdout, bytes) else (e.stdout or '')
+        return 124, out + '\n[timeout after %ds]' % timeout
+
+
+def native_dir():
+    d = os.path.join(ROOT, 'build', 'native', str(os.getpid()))
+    os.makedirs(d, exist_ok=True)
+    return d
+
+
+def build(name, sources, extra=(), compiler='g++'):
+    if name in _built:
+        return _built[name]
+    exe = os.path.join(native_dir(), name)
+    cmd = [compiler, '-std=c++20', '-O1', '-g', '-fno-access-control', '-I' + os.path.join(REPO, 'include')] + DEFS + list(extra) + sources + ['-o', exe, '-pthread']
+    rc, out = run(cmd, 300)
+    if rc != 0:
+        _built[name] = (None, out[-2000:])
+    else:
+        _built[name] = (exe, '')
+    return _built[name]
+
+
+def lock_sources():
+    return [os.path.join(REPO, 'src/lock', f) for f in ('pessimistic_lock.cpp', 'optimistic_lock.cpp', 'mcs_lock.cpp')]
+
+
+def lock_function_of(group):
+    g = group.split('.', 1)[1]
+    for pat, fn in (('UpgradeToX', 'UpgradeToX'), ('DowngradeToSIX', 'DowngradeToSIX'),
+                    ('TryLockSIX', 'TryLockSIX'), ('TryLockS', 'TryLockS'), ('TryLockX', 'TryLockX'),
+                    ('PrepareRead', 'PrepareRead'), ('CompositeGuard', 'CompositeGuard'), ('VerifyVersion', 'VerifyVersion'),
+                    ('GetVersion', 'GetVersion'), ('OptGuard', 'VerifyVersion'),
+                    ('LockSIX', 'LockSIX'), ('LockS', 'LockS'), ('LockX', 'LockX'),
+                    ('UnlockSIX', 'SIXGuard'), ('UnlockS', 'SGuard'), ('UnlockX', 'XGuard'),
+                    ('SIXGuard', 'SIXGuard'), ('SGuard', 'SGuard'), ('XGuard', 'XGuard')):
+        if pat in g:
+            return fn
+    return None
+
+
+def replay_lock_state(comp_name, group, tags):
+    fn = lock_function_of(group)
+    if fn is None:
+        return {'reproduced': False, 'detail': 'no native scenario for group %s' % group}
+    exe, err = build('lock_replay', [os.path.join(ROOT, 'replay', 'lock_replay.cpp')] + lock_sources())
+    if exe is None:
+        return {'reproduced': False, 'detail': 'replayer build failed: ' + err}
+    tried = []
+    for oS in (0, 1, 3):
+        for oSIX in (0, 1):
+            for ver in ('0', '7', '0xffffffff'):
+                cmd = [exe, comp_name, fn, str(oS), str(oSIX), ver]
+                rc, out = run(cmd, 30)
+                tried.append(' '.join(cmd[1:]))
+                if rc == 3:
+                    return {'reproduced': False, 'detail': 'native scenario "%s" not implemented for %s' % (fn, comp_name)}
+                if rc != 0:
+                    return {'reproduced': True, 'command': 'lock_replay ' + ' '.join(cmd[1:]),
+                            'input': {'class': comp_name, 'function': fn, 'other_S_holders': oS, 'other_SIX_holder': oSIX, 'version': ver},
+                            'observed': out.strip().split('\n')[:12],
+                            'how': 'g++ -fno-access-control /verif/replay/lock_replay.cpp /repo/src/lock/*.cpp; the real function was run from the abstract pre-state and its contract evaluated on the real lock word and guards'}
+    return {'reproduced': False, 'detail': 'native search over %d abstract pre-states found no failing input' % len(tried), 'tried': tried[:6]}
 
 
 def attempt(prop, comp, group, ob, rep):
+    tags = ob.get('tags', [])
+    try:
+        if comp.name in ('pess', 'opt', 'mcs'):
+            if prop == 'C08' or 'C08' in tags and prop == 'C08':
+                import replay_tsan
+                return replay_tsan.attempt(comp.name, group.name, ob)
+            return replay_lock_state(comp.name, group.name, tags)
+        mod = {'zipf': 'replay_zipf', 'idm': 'replay_sched', 'epoch': 'replay_sched'}.get(comp.name)
+        if mod:
+            m = __import__(mod)
+            return m.attempt(prop, comp.name, group.name, ob, rep)
+    finally:
+        pass
     return {'reproduced': False, 'detail': 'no native replayer registered for this obligation class'}
+
+
+def cleanup():
+    shutil.rmtree(os.path.join(ROOT, 'build', 'native', str(os.getpid())), ignore_errors=True)
 
 
 def replay_file(path):
     rep = json.load(open(path))
-    print(json.dumps(rep.get('replay', {}), indent=1))
+    r = rep.get('replay', {})
+    print('obligation: %s' % rep.get('failed_obligation'))
+    if r.get('reproduced') and r.get('input', {}).get('class'):
+        i = r['input']
+        out = replay_lock_state(i['class'], rep['group'], [])
+        print(json.dumps(out, indent=1))
+        cleanup()
+        return 1 if out.get('reproduced') else 0
+    print(json.dumps(r, indent=1))
     return 0
